@@ -290,6 +290,7 @@ def load_findings(pid):
 
 
 _FN = None
+POOL_TIMEOUT = 2400          # seconds for one pool_map (set from the tier by main)
 
 
 class ImplementationCrash(Exception):
@@ -330,7 +331,16 @@ def pool_map(fn, items, procs=None, chunksize=None):
         ctx = mp.get_context("fork")
         try:
             with ProcessPoolExecutor(max_workers=procs, mp_context=ctx) as ex:
-                out = list(ex.map(_call, items, chunksize=chunksize or max(1, len(items) // (procs * 4))))
+                try:
+                    out = list(ex.map(_call, items, chunksize=chunksize or max(1, len(items) // (procs * 4)), timeout=POOL_TIMEOUT))
+                except TimeoutError:
+                    # library code that does not come back: the workers are killed, the run ends with a verdict
+                    for pr in list(getattr(ex, "_processes", {}).values()):
+                        try:
+                            pr.kill()
+                        except Exception:
+                            pass
+                    raise ImplementationCrash({"hang": "no answer within %d s" % POOL_TIMEOUT, "first_item": items[0]})
         except BrokenProcessPool:
             culprit = None
             for x in items[:4000]:
@@ -363,6 +373,8 @@ def main(pid, run_fn, replay_fn=None):
     ap.add_argument("--explain", action="store_true")
     a = ap.parse_args(sys.argv[2:] if len(sys.argv) > 1 and sys.argv[1] == pid else None)
     ctx = Ctx(pid, a.tier, a.seed)
+    global POOL_TIMEOUT
+    POOL_TIMEOUT = 2400 if a.tier == "quick" else 6 * 3600
     try:
         if a.replay:
             with open(a.replay) as fh:
